@@ -39,3 +39,13 @@ Theorem C01x_xml_total_partial : forall l g w keep_ws roots,
   forallb no_fail roots = true -> exists out, enc_xml l g w keep_ws roots = XOk out.
 Proof. exact enc_xml_total. Qed.
 Print Assumptions C01x_xml_total_partial.
+
+(* EXACT TOTALITY (full).  The conversion of a tree fails iff the tree contains a processing-instruction node, an embedded
+   tree without language, or EMPTY content of a binary-flagged element outside a CDATA node (sfl: a predicate on the
+   tree alone — it does not depend on the language, the generation mode, the width, the white-space setting or the
+   nesting depth; the only state it threads is the generator's own "inside a CDATA node" bit).  In every other case
+   enc_xml returns a document: it is a structural recursion, there is no fuel to exhaust. *)
+Theorem C01x_xml_total : forall l g w keep_ws roots,
+  (exists e, enc_xml l g w keep_ws roots = XErr e) <-> fst (sfl None false roots) = true.
+Proof. exact enc_xml_fails_iff. Qed.
+Print Assumptions C01x_xml_total.
